@@ -40,6 +40,8 @@ pub struct LexFail {
     /// tokens recognised before the failure
     pub tokens_before: Vec<RTok>,
     pub what: &'static str,
+    /// byte offset at which the offending lexeme starts
+    pub at: usize,
 }
 
 fn is_ident_start(c: char) -> bool {
@@ -70,7 +72,7 @@ pub fn tokenize(src: &str) -> Result<Vec<RTok>, LexFail> {
     let n = src.len();
     macro_rules! fail {
         ($what:expr, $($adm:expr),+) => {
-            return Err(LexFail { admissible: vec![$($adm),+], tokens_before: out, what: $what })
+            return Err(LexFail { admissible: vec![$($adm),+], tokens_before: out, what: $what, at: p })
         };
     }
     while p < n {
@@ -208,7 +210,7 @@ pub fn tokenize(src: &str) -> Result<Vec<RTok>, LexFail> {
                     if let Some(u) = u {
                         adm.push(u);
                     }
-                    return Err(LexFail { admissible: adm, tokens_before: out, what: "malformed attribute" });
+                    return Err(LexFail { admissible: adm, tokens_before: out, what: "malformed attribute", at: p });
                 }
             }
         }
